@@ -69,14 +69,14 @@ Section B.
   Variables (c : cfg) (mi : Z -> list Z).
   Hypothesis W : WF c mi.
 
-  Lemma side_events_closed ci sc : wf_side sc ->
-    exists bs, Closed (side_events c ci sc) bs /\ Forall (fun x => fst x = S ci) bs.
+  Lemma side_events_closed ci sc p : wf_side sc ->
+    exists bs, Closed (side_events c ci sc p) bs /\ Forall (fun x => fst x = S ci) bs.
   Proof.
     intros Hw. unfold side_events.
     assert (1 <= Z.to_nat (or_default (sbs sc) (cB c)))%nat as Hb.
     { destruct Hw as (_ & _ & _ & Hb & _). pose proof (wf_B c mi W). unfold or_default.
       destruct (sbs sc) eqn:E; [specialize (Hb _ eq_refl)|]; lia. }
-    pose proof (chunk_all_nonempty _ (map (Z.add (offset_of c ci)) (sidx sc)) Hb) as Hne.
+    pose proof (chunk_all_nonempty _ (map (Z.add (offset_of c ci)) (sidx sc p)) Hb) as Hne.
     induction Hne as [|b bs Hb0 _ IH].
     - exists []. split; constructor.
     - destruct IH as [tags [Hc Ht]]. exists ((S ci, b) :: tags). cbn [flat_map]. split.
@@ -84,75 +84,71 @@ Section B.
       + constructor; auto.
   Qed.
 
-  Definition tags_ok (bs : list (nat * list Z)) : Prop := True.
-
-  Lemma passes_closed k : forall l ci, Forall wf_side l ->
-    exists bs, Closed (passes_from c ci l k) bs /\ Forall (fun x => (1 <= fst x)%nat) bs.
+  Lemma passes_closed k : forall l ci pn, Forall wf_side l ->
+    exists bs, Closed (passes_from c ci l pn k) bs /\ Forall (fun x => (1 <= fst x)%nat) bs.
   Proof.
-    induction l as [|sc l IH]; intros ci HF.
+    induction l as [|sc l IH]; intros ci pn HF.
     - exists []. split; constructor.
-    - inversion HF as [|? ? Hsc HF']; subst. cbn [passes_from].
-      destruct (IH (S ci) HF') as [bs2 [Hc2 Ht2]].
+    - destruct pn as [|p pn]; [exists []; split; constructor|].
+      inversion HF as [|? ? Hsc HF']; subst. cbn [passes_from].
+      destruct (IH (S ci) pn HF') as [bs2 [Hc2 Ht2]].
       destruct (due sc k).
-      + destruct (side_events_closed ci sc Hsc) as [bs1 [Hc1 Ht1]].
+      + destruct (side_events_closed ci sc p Hsc) as [bs1 [Hc1 Ht1]].
         exists (bs1 ++ bs2). split; [apply Closed_app; auto|].
         apply Forall_app. split; auto.
         eapply Forall_impl; [|exact Ht1]. intros a Ha. cbn in Ha. lia.
       + exists bs2. auto.
   Qed.
 
-  (* a stream of tagged batches in which every batch is either a main batch or a
-     side batch: the tag says which *)
-  Definition unmixed (bs : list (nat * list Z)) : Prop := True.
-
-  Lemma update_closed e j : (j < length (epoch_batches c mi e))%nat ->
-    exists bs, Closed (u_events (upd_at c e (epoch_batches c mi e) j)) bs.
+  Lemma update_closed e pn j : (j < length (epoch_batches c mi e))%nat ->
+    exists bs, Closed (u_events (upd_at c e (epoch_batches c mi e) pn j)) bs.
   Proof.
     intros Hj. unfold upd_at. cbn [u_events].
-    destruct (passes_closed (counters_at c e (epoch_batches c mi e) j) (sides c) 0%nat (wf_sides c mi W)) as [bs [Hc _]].
+    destruct (passes_closed (counters_at c e (epoch_batches c mi e) j) (sides c) 0%nat
+                            (pn_at c pn e (epoch_batches c mi e) j) (wf_sides c mi W)) as [bs [Hc _]].
     exists ((0%nat, nth j (epoch_batches c mi e) []) :: bs). constructor; auto.
     pose proof (wf_B c mi W).
     assert (Forall (fun x => x <> []) (epoch_batches c mi e)) as HF by (apply chunk_all_nonempty; lia).
     rewrite Forall_forall in HF. apply HF. apply nth_In. exact Hj.
   Qed.
 
-  Lemma updates_closed e us : incl us (epoch_updates c mi e) -> exists bs, Closed (flat_map u_events us) bs.
+  Lemma updates_closed e pn us : incl us (epoch_updates c mi e pn) -> exists bs, Closed (flat_map u_events us) bs.
   Proof.
     induction us as [|u us IH]; intros Hin.
     - exists []. constructor.
     - destruct IH as [bs2 H2]; [intros x Hx; apply Hin; now right|].
-      assert (In u (epoch_updates c mi e)) as Hu by (apply Hin; now left).
+      assert (In u (epoch_updates c mi e pn)) as Hu by (apply Hin; now left).
       unfold epoch_updates in Hu. apply in_map_iff in Hu. destruct Hu as [j [<- Hj]].
-      apply in_seq in Hj. destruct (update_closed e j) as [bs1 H1]; [lia|].
+      apply in_seq in Hj. destruct (update_closed e pn j) as [bs1 H1]; [lia|].
       exists (bs1 ++ bs2). cbn [flat_map]. apply Closed_app; auto.
   Qed.
 
-  Lemma epoch_events_closed e : exists bs, Closed (epoch_events c mi e) bs.
+  Lemma epoch_events_closed e pn : exists bs, Closed (epoch_events c mi e pn) bs.
   Proof.
     unfold epoch_events.
-    destruct (updates_closed e (fst (take_until (hit c) (epoch_updates c mi e)))) as [bs H];
+    destruct (updates_closed e pn (fst (take_until (hit c) (epoch_updates c mi e pn)))) as [bs H];
       [apply take_until_incl|].
     exists bs. constructor. exact H.
   Qed.
 
-  Lemma spec_run_closed : forall n e tr, spec_run c mi e n = Some tr -> exists bs, Closed tr bs.
+  Lemma spec_run_closed : forall n e pn tr, spec_run c mi e pn n = Some tr -> exists bs, Closed tr bs.
   Proof.
-    induction n as [|n IH]; intros e tr H; [discriminate|]. cbn [spec_run] in H.
-    destruct (epoch_events_closed e) as [bs1 H1].
+    induction n as [|n IH]; intros e pn tr H; [discriminate|]. cbn [spec_run] in H.
+    destruct (epoch_events_closed e pn) as [bs1 H1].
     destruct (epoch_hits c mi e).
     - injection H as <-. eauto.
-    - destruct (spec_run c mi (e + 1) n) as [rest|] eqn:E; [|discriminate]. injection H as <-.
-      destruct (IH _ _ E) as [bs2 H2]. exists (bs1 ++ bs2).
-      change (Closed (epoch_events c mi e ++ rest) (bs1 ++ bs2)). apply Closed_app; auto.
+    - destruct (spec_run c mi (e + 1) _ n) as [rest|] eqn:E; [|discriminate]. injection H as <-.
+      destruct (IH _ _ _ E) as [bs2 H2]. exists (bs1 ++ bs2).
+      change (Closed (epoch_events c mi e pn ++ rest) (bs1 ++ bs2)). apply Closed_app; auto.
   Qed.
 
   (* C04: the stream always ends on a batch boundary: the batch sampler's final
      assertion never fires, and its batches are exactly the stream's batches *)
-  Theorem ends_on_batch_boundary n e tr :
-    run c mi n (start_state c e) = Some tr -> snd (batches (render tr)) = true.
+  Theorem ends_on_batch_boundary n e pn tr : length pn = length (sides c) ->
+    run c mi n (start_state c e pn) = Some tr -> snd (batches (render tr)) = true.
   Proof.
-    unfold start_state. rewrite (model_eq_spec c mi W). intros H.
-    destruct (spec_run_closed n e tr H) as [bs Hc]. now rewrite (batches_closed tr bs Hc).
+    intros Hpl. unfold start_state. rewrite (model_eq_spec c mi W) by exact Hpl. intros H.
+    destruct (spec_run_closed n e pn tr H) as [bs Hc]. now rewrite (batches_closed tr bs Hc).
   Qed.
 End B.
 
@@ -193,14 +189,14 @@ Proof.
   - rewrite stream_tags_app, stream_tags_emit_side. now f_equal.
 Qed.
 
-Theorem no_mixed_batch c mi : WF c mi -> forall n e tr,
-  run c mi n (start_state c e) = Some tr ->
+Theorem no_mixed_batch c mi : WF c mi -> forall n e pn tr, length pn = length (sides c) ->
+  run c mi n (start_state c e pn) = Some tr ->
   exists tagged : list (nat * list Z),
     fst (batches (render tr)) = map snd tagged /\
     flat_map (fun tb => map (pair (fst tb)) (snd tb)) tagged = stream_tags tr.
 Proof.
-  intros W n e tr H. unfold start_state in H. rewrite (model_eq_spec c mi W) in H.
-  destruct (spec_run_closed c mi W n e tr H) as [bs Hc]. exists bs. split.
+  intros W n e pn tr Hpl H. unfold start_state in H. rewrite (model_eq_spec c mi W) in H by exact Hpl.
+  destruct (spec_run_closed c mi W n e pn tr H) as [bs Hc]. exists bs. split.
   - now rewrite (batches_closed tr bs Hc).
   - now apply closed_batches_unmixed.
 Qed.
